@@ -288,6 +288,11 @@ class Run:
             distinct_nontrivial=len([h for h in self.harness_rows if h["status"] == "ok" and h["checks"] > 0]) + self.backends.get("verus-0.2026.09.13/z3", 0),
             rule="one evaluation = one Verus unit run or one Kani harness; non-trivial = harness with >0 CBMC checks and all covers satisfied, or a Verus function whose SMT query was discharged",
         )
+        if level == "proof" and (self.obligations == 0 or self.discharged != self.obligations):
+            # a run that did not discharge everything (violation / undecided) must not present itself as a proof
+            level = "other"
+            cov["explanation"] = "this run did not discharge all obligations: %d of %d discharged, %d violation(s), %d undecided item(s)" % (
+                self.discharged, self.obligations, len(self.violations), len(self.undecided))
         ev = dict(property_id=self.pid, tier=self.tier, seed=self.seed, level=level, coverage=cov,
                   assumptions=spec.get("assumptions", []) + ["see coverage.trusted_base for the mechanically scanned list"],
                   wall_s=round(wall, 1), violations=len(self.violations))
